@@ -55,7 +55,9 @@ def _exec(self, x, get_child, get_param, get_var):
   for i, st in enumerate(self.d):
     op = st[0]
     if op == 'param':
-      x = x * get_param(i, st, x)
+      p = get_param(i, st, x)
+      if st[2] != 'k':   # kind 'k': the parameter *is* the key data its initialiser received
+        x = x * p
     elif op == 'var':
       _, col, n, kind = st
       v = get_var(i, st)
@@ -74,7 +76,10 @@ def _exec(self, x, get_child, get_param, get_var):
       x = self.perturb(st[1], x)
     elif op == 'rng':
       k = self.make_rng(st[1])
-      ks = ks + (jax.random.key_data(k),)
+      kd = jax.random.key_data(k)
+      if RNGLOG is not None and not isinstance(kd, jax.core.Tracer):
+        RNGLOG.append((tuple(self.path), st[1], tuple(np.asarray(kd).tolist())))
+      ks = ks + (kd,)
       x = x + rng_bump(k)
     elif op == 'child':
       c = get_child(i, st)
@@ -154,6 +159,7 @@ def _control(self, st, x):
 
 
 LEAKS: list = []
+RNGLOG: list | None = []   # (module path, stream, key data) of every eager make_rng
 SHARED: dict = {}   # slot -> module instance handed to several parents (set by the harness)
 
 
@@ -175,6 +181,8 @@ def _compact_call(self, x):
     return CLS[key](d=st[2], ki=self.ki, name=st[3], **kw)
 
   def get_param(i, st, x):
+    if st[2] == 'k':
+      return self.param(st[1], lambda key: jax.random.key_data(key))
     shape = () if st[2] == 's' else (x.shape[-1],)
     return self.param(st[1], pinit(self.ki), shape)
 
